@@ -71,7 +71,7 @@ from ..ast.fpyast import (
 from ..number import REAL, Context
 from ..utils import Gensym
 from .cursor import Cursor, EditLog, ExprCursor
-from .utils import Declined, SiteRewriter, check_where, operands, rebuild
+from .utils import Declined, SiteRewriter, check_where, clone, operands, rebuild
 
 _ROUNDABLE = (Add, Sub, Mul, Abs, Neg, Round, Cast)
 """The operations that carry a context-driven rounding."""
@@ -222,7 +222,10 @@ class _RoundInsertInstance(SiteRewriter):
         return super()._visit_for(stmt, None)[0], ctx
 
     def _visit_context(self, stmt: ContextStmt, ctx: Any):
-        return super()._visit_context(stmt, None)[0], ctx
+        # the context expression is evaluated exactly and under no scope
+        # (`ContextUse` records no use site in it), so it holds no candidate
+        body, _ = self._visit_block(stmt.body, None)
+        return ContextStmt(stmt.target, clone(stmt.ctx), body, stmt.loc), ctx
 
     def _visit_list_comp(self, e: ListComp, ctx: Any) -> ListComp:
         # the element sees the loop targets and later iterables see earlier
